@@ -298,7 +298,7 @@ func evaluate(before, after map[string]*Entry, ex *Expect, sideOutputs []string)
 func describeNew(ex *Expect) string {
 	switch ex.NewKind {
 	case "file":
-		return (&Entry{Kind: "file", Data: ex.NewBytes}).String()
+		return fmt.Sprintf("file(%d bytes)", len(ex.NewBytes))
 	case "symlink":
 		return "symlink(" + ex.NewLink + ")"
 	case "dir":
@@ -339,7 +339,7 @@ func isContentWrite(name string) bool {
 }
 
 // traceObligations checks the system-call sequence of a complete run.
-func traceObligations(ot *OpTrace, ex *Expect) []Problem {
+func traceObligations(ot *OpTrace, ex *Expect, opOK bool) []Problem {
 	var out []Problem
 	if ex.NewKind != "file" {
 		return nil
@@ -388,7 +388,7 @@ func traceObligations(ot *OpTrace, ex *Expect) []Problem {
 			out = append(out, Problem{"fsync-before-rename", "write-after-fsync", fmt.Sprintf("temp file %s is written (line %d) after its last fsync (line %d) and then renamed (line %d)", filepath.Base(tmp), ot.Calls[lastWrite].Line, ot.Calls[lastSync].Line, c.Line)})
 		}
 	}
-	if !published && ot.Ended {
+	if !published && ot.Ended && opOK {
 		out = append(out, Problem{"fsync-before-rename", "not-published-by-rename", "the complete operation contains no rename onto the destination"})
 	}
 	return out
